@@ -14,6 +14,7 @@ import BufrModel.Drv.SubsetOp
 import BufrModel.Drv.TemplateOp
 import BufrModel.Drv.CacheOp
 import BufrModel.Drv.CompilerOp
+import BufrModel.Drv.TableDefOp
 open Lean Bufr.Drv
 
 /-- stateless operations: one line per op -/
